@@ -1067,7 +1067,7 @@ Print Assumptions C08_tdd_level_swap_example.
 From Coq Require Import Bool List NArith PArith FMapPositive.
 From OxiVerif Require Import DD.Sem DD.Build DD.Apply DD.ConfigApply DD.FamSpec DD.ZbddOps DD.ZbddOpsProofs DD.ZbddBool
   DD.ZbddBoolProofs DD.ZbddEvalProofs Mgr.LevelSwapZ Mgr.LevelSwapZProofs Mgr.HistoryExamples
-  Mgr.HistoryZ Mgr.HistoryZBase Mgr.HistoryZFam Mgr.HistoryZProofs Mgr.HistoryZThms Mgr.HistoryZSpec Mgr.HistoryZTie
+  Mgr.HistoryZ Mgr.HistoryZBase Mgr.HistoryZCache Mgr.HistoryZFam Mgr.HistoryZProofs Mgr.HistoryZThms Mgr.HistoryZSpec Mgr.HistoryZTie
   Mgr.HistoryZExamples.
 
 (* set_var_order in any state of any history: invariant, same slots, same functions and families, requested relative order *)
@@ -1077,12 +1077,10 @@ Theorem C08_histz_reorder_keeps :
   zlossy C cget cadd ->
   forall cempty : C,
   (forall (k : N) (a : list ref) (m : list nat), cget cempty k a m = None) ->
-  forall cav : C -> C,
-  cav_ok C cget cav ->
   forall (st : hstate_z C) (order : list nat) (st' : hstate_z C),
   HInvZ C cget st ->
   zhop_pre C st (ZHSetVarOrder order) ->
-  hstep_z gt C cget cadd cempty cav st (ZHSetVarOrder order) = Some st' ->
+  hstep_z gt C cget cadd cempty st (ZHSetVarOrder order) = Some st' ->
   HInvZ C cget st' /\
   nlevels (hz_s C st') = nlevels (hz_s C st) /\
   s_handles (hz_s C st') = s_handles (hz_s C st) /\
@@ -1103,12 +1101,10 @@ Theorem C08_histz_frame :
   zlossy C cget cadd ->
   forall cempty : C,
   (forall (k : N) (a : list ref) (m : list nat), cget cempty k a m = None) ->
-  forall cav : C -> C,
-  cav_ok C cget cav ->
   forall (st : hstate_z C) (o : zhop) (st' : hstate_z C),
   HInvZ C cget st ->
   zhop_pre C st o ->
-  hstep_z gt C cget cadd cempty cav st o = Some st' ->
+  hstep_z gt C cget cadd cempty st o = Some st' ->
   forall (x : N) (e : edge),
   zhdst o <> Some x ->
   hget (s_handles (hz_s C st)) x = Some e ->
@@ -1129,12 +1125,10 @@ Theorem C08_histz_slot_stable :
   zlossy C cget cadd ->
   forall cempty : C,
   (forall (k : N) (a : list ref) (m : list nat), cget cempty k a m = None) ->
-  forall cav : C -> C,
-  cav_ok C cget cav ->
   forall (ops : list zhop) (st st' : hstate_z C),
   HInvZ C cget st ->
-  zhops_pre gt C cget cadd cempty cav st ops ->
-  hrun_z gt C cget cadd cempty cav st ops = Some st' ->
+  zhops_pre gt C cget cadd cempty st ops ->
+  hrun_z gt C cget cadd cempty st ops = Some st' ->
   forall (x : N) (e : edge),
   (forall o : zhop, In o ops -> zhdst o <> Some x) ->
   hget (s_handles (hz_s C st)) x = Some e ->
@@ -1158,21 +1152,18 @@ Theorem C08_histz_fresh_equiv :
   forall (ce1 : C1) (ce2 : C2),
   (forall (k : N) (a : list ref) (m : list nat), cget1 ce1 k a m = None) ->
   (forall (k : N) (a : list ref) (m : list nat), cget2 ce2 k a m = None) ->
-  forall (cav1 : C1 -> C1) (cav2 : C2 -> C2),
-  cav_ok C1 cget1 cav1 ->
-  cav_ok C2 cget2 cav2 ->
   forall (n1 n2 : nat) (ops1 ops2 : list zhop) (st1 : hstate_z C1) (st2 : hstate_z C2) (o1 o2 : zhop) (d1 d2 : N) (F : bfun),
-  zhops_pre gt1 C1 cget1 cadd1 ce1 cav1 (hinit_z C1 ce1 n1) ops1 ->
-  hrun_z gt1 C1 cget1 cadd1 ce1 cav1 (hinit_z C1 ce1 n1) ops1 = Some st1 ->
-  zhops_pre gt2 C2 cget2 cadd2 ce2 cav2 (hinit_z C2 ce2 n2) ops2 ->
-  hrun_z gt2 C2 cget2 cadd2 ce2 cav2 (hinit_z C2 ce2 n2) ops2 = Some st2 ->
+  zhops_pre gt1 C1 cget1 cadd1 ce1 (hinit_z C1 ce1 n1) ops1 ->
+  hrun_z gt1 C1 cget1 cadd1 ce1 (hinit_z C1 ce1 n1) ops1 = Some st1 ->
+  zhops_pre gt2 C2 cget2 cadd2 ce2 (hinit_z C2 ce2 n2) ops2 ->
+  hrun_z gt2 C2 cget2 cadd2 ce2 (hinit_z C2 ce2 n2) ops2 = Some st2 ->
   s_l2v (hz_s C1 st1) = s_l2v (hz_s C2 st2) ->
   s_v2l (hz_s C1 st1) = s_v2l (hz_s C2 st2) ->
   hspec_z C1 st1 o1 d1 F ->
   hspec_z C2 st2 o2 d2 F ->
   exists (st1' : hstate_z C1) (st2' : hstate_z C2) (r1 r2 : ref),
-  hstep_z gt1 C1 cget1 cadd1 ce1 cav1 st1 o1 = Some st1' /\
-  hstep_z gt2 C2 cget2 cadd2 ce2 cav2 st2 o2 = Some st2' /\
+  hstep_z gt1 C1 cget1 cadd1 ce1 st1 o1 = Some st1' /\
+  hstep_z gt2 C2 cget2 cadd2 ce2 st2 o2 = Some st2' /\
   zslot C1 st1' d1 = Some r1 /\
   zslot C2 st2' d2 = Some r2 /\
   (forall a : asg, zbfun_of (hz_s C1 st1') r1 a = F a) /\
@@ -1185,8 +1176,8 @@ Print Assumptions C08_histz_fresh_equiv.
 (* instantiated: 31-call history (cache, swapped operands) vs. fresh 4-variable manager (no cache) *)
 Theorem C08_histz_example_fresh :
   exists (stA' : hstate_z zacache) (stB' : hstate_z unit) (r1 r2 : ref),
-  hstep_z zgtA zacache zac_get zac_add nil zcavA exz_stA (ZHSet ZUnion 30 5 6) = Some stA' /\
-  hstep_z zgtB unit znc_get znc_add tt zcavB exz_stB (ZHSet ZUnion 9 6 8) = Some stB' /\
+  hstep_z zgtA zacache zac_get zac_add nil exz_stA (ZHSet ZUnion 30 5 6) = Some stA' /\
+  hstep_z zgtB unit znc_get znc_add tt exz_stB (ZHSet ZUnion 9 6 8) = Some stB' /\
   zslot zacache stA' 30 = Some r1 /\
   zslot unit stB' 9 = Some r2 /\
   (forall a : asg, zbfun_of (hz_s zacache stA') r1 a = zop_s ZUnion zfA5 zfA6 a) /\
